@@ -28,10 +28,17 @@ import (
 //	call    <method>  a call of another function of the scanned files on the pool value (x.mp.f(...) or mp.f(...))
 //
 // together with the lock level held at that point (0 none, 1 shared, 2 exclusive). The pool value is any expression
-// `mp` or `<x>.mp` (receiver name / field name `mp`, which is what mempool.go, txlist.go and txverifier.go use).
-// Purely syntactic; the Lean side (Aergo.Lemmas.PoolLocks) computes with which lock each helper is entered (minimum over
-// its call sites) and checks that every write happens under the exclusive lock and every read under some lock, except
-// for a listed set of exceptions.
+// `mp` or `<x>.mp` (receiver / parameter / field name `mp`, which is what mempool.go, txlist.go and txverifier.go use);
+// calls of plain functions of the scanned files are call sites too. Every function also carries `internal`: its name is
+// unexported (or it is a method of an unexported type) and it is never used as a value (method value, function value,
+// method expression) in the scanned files — only such a function can be entered *only* through the call sites listed.
+// Purely syntactic; the Lean side (Aergo.Lemmas.PoolLocks) makes the table interprocedural: the level an internal
+// function is entered with is the minimum over all its call sites of max(entry level of the caller, level at the site),
+// iterated to a fixpoint; no call site, exported or used as a value => none. Accesses are judged at
+// max(entry level, level taken locally): every write must be exclusive and every read under some lock, except for a
+// listed set of exceptions.
+//
+//	-reuse M   do not emit the Eff/Fn structures, import module M and use its (for the synthetic self-test table)
 func init() { register("poollocks", cmdPoolLocks) }
 
 type plEff struct {
@@ -42,6 +49,7 @@ type plEff struct {
 type plScan struct {
 	guard map[string]bool
 	funcs map[string]bool
+	plain map[string]bool // package-level functions (not methods) of the scanned files
 	effs  []plEff
 	seen  map[string]bool
 }
@@ -119,6 +127,9 @@ func (s *plScan) exprEffects(n ast.Node, lock int, skip map[ast.Expr]bool) {
 					s.add("write", f, lock)
 					skip[v.Args[0]] = true
 				}
+			}
+			if id, ok := v.Fun.(*ast.Ident); ok && s.plain[id.Name] {
+				s.add("call", id.Name, lock)
 			}
 			if sel, ok := v.Fun.(*ast.SelectorExpr); ok {
 				switch {
@@ -285,6 +296,7 @@ func cmdPoolLocks(args []string) error {
 	out := fs.String("o", "", "output .lean file")
 	repo := fs.String("repo", "/repo", "repository root")
 	ns := fs.String("ns", "Aergo.Gen.PoolLocks", "Lean namespace")
+	reuse := fs.String("reuse", "", "import this module for the Eff/Fn structures instead of emitting them")
 	guard := fs.String("guard", "pool,length,orphan,cache,bestBlockID,bestBlockInfo,stateDB,bestChainIdHash,acceptChainIdHash", "guarded fields of the pool value")
 	if err := fs.Parse(args); err != nil {
 		return err
@@ -297,11 +309,16 @@ func cmdPoolLocks(args []string) error {
 		g[f] = true
 	}
 	type fn struct {
-		name string
-		body *ast.BlockStmt
+		name     string
+		short    string
+		body     *ast.BlockStmt
+		internal bool
 	}
 	var fns []fn
 	funcs := map[string]bool{}
+	plain := map[string]bool{}
+	taken := map[string]bool{} // used as a value somewhere: callable from anywhere
+	var files []*ast.File
 	for _, file := range fs.Args() {
 		fset := token.NewFileSet()
 		af, err := parser.ParseFile(fset, filepath.Join(*repo, file), nil, parser.SkipObjectResolution)
@@ -314,9 +331,50 @@ func cmdPoolLocks(args []string) error {
 				continue
 			}
 			name := funcName(fd)
-			fns = append(fns, fn{name, fd.Body})
+			internal := !ast.IsExported(fd.Name.Name)
+			if fd.Recv != nil {
+				if i := strings.Index(name, "."); i > 0 && !ast.IsExported(name[:i]) {
+					internal = true // a method of an unexported type
+				}
+			} else {
+				plain[fd.Name.Name] = true
+			}
+			fns = append(fns, fn{name, fd.Name.Name, fd.Body, internal})
 			funcs[fd.Name.Name] = true
 		}
+		files = append(files, af)
+	}
+	// a function or method that is mentioned anywhere but in call position may be called from anywhere
+	for _, af := range files {
+		inCall := map[ast.Expr]bool{}
+		declName := map[*ast.Ident]bool{}
+		ast.Inspect(af, func(x ast.Node) bool {
+			switch v := x.(type) {
+			case *ast.FuncDecl:
+				declName[v.Name] = true
+			case *ast.CallExpr:
+				inCall[v.Fun] = true
+			}
+			return true
+		})
+		ast.Inspect(af, func(x ast.Node) bool {
+			switch v := x.(type) {
+			case *ast.SelectorExpr:
+				if funcs[v.Sel.Name] && !inCall[v] {
+					taken[v.Sel.Name] = true // a method value / method expression (or a field of that name: conservative)
+				}
+				declName[v.Sel] = true // the selector's own identifier is not a bare mention
+			case *ast.Ident:
+				if plain[v.Name] && !inCall[v] && !declName[v] {
+					taken[v.Name] = true
+				}
+			case *ast.KeyValueExpr:
+				if id, ok := v.Key.(*ast.Ident); ok {
+					declName[id] = true // a field name in a composite literal
+				}
+			}
+			return true
+		})
 	}
 	for _, l := range []string{"Lock", "RLock", "Unlock", "RUnlock"} {
 		delete(funcs, l)
@@ -325,14 +383,20 @@ func cmdPoolLocks(args []string) error {
 	var b strings.Builder
 	fmt.Fprintf(&b, "-- GENERATED by /verif/tools/goext poollocks from %s. Do not edit.\n", strings.Join(fs.Args(), ", "))
 	fmt.Fprintf(&b, "namespace %s\n\n", *ns)
-	b.WriteString("/-- kind: 0 write, 1 read, 2 listmut, 3 cache, 4 call; `what`: field or method; `lock`: level of the pool's own lock\nheld at that point of the function body (0 none, 1 shared, 2 exclusive) -/\n")
-	b.WriteString("structure Eff where\n  kind : Nat\n  what : String\n  lock : Nat\nderiving DecidableEq, Repr\n\n")
-	b.WriteString("structure Fn where\n  name : String\n  effs : List Eff\nderiving Repr\n\n")
+	if *reuse != "" {
+		b.Reset()
+		fmt.Fprintf(&b, "-- GENERATED by /verif/tools/goext poollocks from %s. Do not edit.\nimport %s\nnamespace %s\nopen %s\n\n", strings.Join(fs.Args(), ", "), *reuse, *ns, *reuse)
+	} else {
+		b.WriteString("/-- kind: 0 write, 1 read, 2 listmut, 3 cache, 4 call; `what`: field or method; `lock`: level of the pool's own lock\nheld at that point of the function body (0 none, 1 shared, 2 exclusive) -/\n")
+		b.WriteString("structure Eff where\n  kind : Nat\n  what : String\n  lock : Nat\nderiving DecidableEq, Repr\n\n")
+		b.WriteString("/-- `internal`: unexported (or a method of an unexported type) and never used as a value in the scanned files: entered\nonly through the call sites the table lists -/\n")
+		b.WriteString("structure Fn where\n  name : String\n  internal : Bool\n  effs : List Eff\nderiving Repr\n\n")
+	}
 	kinds := map[string]int{"write": 0, "read": 1, "listmut": 2, "cache": 3, "call": 4}
 	b.WriteString("def fns : List Fn := [\n")
 	n := 0
 	for _, f := range fns {
-		sc := &plScan{guard: g, funcs: funcs, seen: map[string]bool{}}
+		sc := &plScan{guard: g, funcs: funcs, plain: plain, seen: map[string]bool{}}
 		sc.block(f.body.List, 0)
 		if len(sc.effs) == 0 {
 			continue
@@ -342,11 +406,11 @@ func cmdPoolLocks(args []string) error {
 		}
 		n++
 		// method names without the receiver type (calls are by method name)
-		short := f.name
-		if i := strings.LastIndex(short, "."); i >= 0 {
-			short = short[i+1:]
+		internal := "false"
+		if f.internal && !taken[f.short] {
+			internal = "true"
 		}
-		fmt.Fprintf(&b, "  ⟨%s, [", leanStr(short))
+		fmt.Fprintf(&b, "  ⟨%s, %s, [", leanStr(f.short), internal)
 		for i, e := range sc.effs {
 			if i > 0 {
 				b.WriteString(", ")
